@@ -619,9 +619,15 @@ Contract(
         # it only creates TASK_CANCEL / TASK_RELEASE events
         z3.ForAll(
             [z3.Int("sk_j")],
-            z3.Implies(z3.And(0 <= z3.Int("sk_j"), z3.Int("sk_j") < c.post.c_len(EL, c.res)), ev_type(c.post, c.post.l_elem(EL, c.res, z3.Int("sk_j"))) != et("TASK_PLACEMENT")),
+            z3.Implies(z3.And(0 <= z3.Int("sk_j"), z3.Int("sk_j") < c.post.c_len(EL, c.res)), z3.And(c.post.l_elem(EL, c.res, z3.Int("sk_j")) != 0, ev_type(c.post, c.post.l_elem(EL, c.res, z3.Int("sk_j"))) != et("TASK_PLACEMENT"))),
             patterns=[c.post.l_elem(EL, c.res, z3.Int("sk_j"))],
         ),
+        # the cache of pending placements only loses entries
+        z3.ForAll([z3.Const("sk_x", T.sort(T.STR))], z3.Implies(c.post.d_dom(FutureMap, fut(c.pre, c.arg("self")), z3.Const("sk_x", T.sort(T.STR))), c.pre.d_dom(FutureMap, fut(c.pre, c.arg("self")), z3.Const("sk_x", T.sort(T.STR)))), patterns=[c.post.d_dom(FutureMap, fut(c.pre, c.arg("self")), z3.Const("sk_x", T.sort(T.STR)))]),
+        # it queues nothing itself (the events it creates are returned): the queue can only lose the pending placement
+        z3.ForAll([z3.Int("sk_e")], z3.Implies(mem(c.post, sim_queue(c.pre, c.arg("self")), z3.Int("sk_e")), mem(c.pre, sim_queue(c.pre, c.arg("self")), z3.Int("sk_e"))), patterns=[mem(c.post, sim_queue(c.pre, c.arg("self")), z3.Int("sk_e"))]),
+        # every task it touches goes through Task.unschedule / Task.cancel, which preserve the Task representation invariant
+        z3.ForAll([z3.Int("sk_t")], z3.Implies(wf_task(c.pre, z3.Int("sk_t")), wf_task(c.post, z3.Int("sk_t"))), patterns=[c.post.rd(z3.Int("sk_t"), TASK, "_state")[1]]),
     ),
     note="__create_events_from_task_placement_skip (unplaced / skipped decisions: unschedule or cancel cascade): assumed to keep the queue a valid heap; its effect on task states is decided by the bounded worlds / taskgraph stand-ins",
     props=("C16", "C06"),
@@ -695,6 +701,30 @@ def _ce_ens(c):
                 us(ev_time(c.post, c.post.d_val(FutureMap, fut(c.pre, s), tid(c.pre, task)))) == us(ptime),
             ),
         ),
+        # only the pending placement event cached for THIS task is ever re-timed; cache entries are old ones or fresh events
+        "events.only_cached_event_of_task_retimed": z3.ForAll(
+            [z3.Int("ce_e")],
+            z3.Implies(
+                z3.And(0 < z3.Int("ce_e"), z3.Int("ce_e") < c.alloc0, z3.Not(z3.And(c.pre.d_dom(FutureMap, fut(c.pre, s), tid(c.pre, task)), z3.Int("ce_e") == c.pre.d_val(FutureMap, fut(c.pre, s), tid(c.pre, task))))),
+                ev_time(c.post, z3.Int("ce_e")) == ev_time(c.pre, z3.Int("ce_e")),
+            ),
+            patterns=[ev_time(c.post, z3.Int("ce_e"))],
+        ),
+        "cache.entries_old_or_fresh": z3.ForAll(
+            [z3.Const("ce_x", T.sort(T.STR))],
+            z3.Implies(
+                c.post.d_dom(FutureMap, fut(c.pre, s), z3.Const("ce_x", T.sort(T.STR))),
+                z3.Or(
+                    z3.And(c.pre.d_dom(FutureMap, fut(c.pre, s), z3.Const("ce_x", T.sort(T.STR))), c.post.d_val(FutureMap, fut(c.pre, s), z3.Const("ce_x", T.sort(T.STR))) == c.pre.d_val(FutureMap, fut(c.pre, s), z3.Const("ce_x", T.sort(T.STR)))),
+                    c.post.d_val(FutureMap, fut(c.pre, s), z3.Const("ce_x", T.sort(T.STR))) >= c.alloc0,
+                ),
+            ),
+            patterns=[c.post.d_dom(FutureMap, fut(c.pre, s), z3.Const("ce_x", T.sort(T.STR)))],
+        ),
+        "queue.members_only_shrink": z3.ForAll([z3.Int("ce_e")], z3.Implies(mem(c.post, lst, z3.Int("ce_e")), mem(c.pre, lst, z3.Int("ce_e"))), patterns=[mem(c.post, lst, z3.Int("ce_e"))]),
+        "events.not_none": z3.ForAll([j], z3.Implies(z3.And(0 <= j, j < c.post.c_len(EL, r)), ej != 0), patterns=[c.post.l_elem(EL, r, j)]),
+        "task.stays_well_formed": wf_task(c.post, task),
+        "other_tasks.stay_well_formed": z3.ForAll([z3.Int("ce_t")], z3.Implies(z3.And(z3.Int("ce_t") != task, 0 < z3.Int("ce_t"), z3.Int("ce_t") < c.alloc0, wf_task(c.pre, z3.Int("ce_t"))), wf_task(c.post, z3.Int("ce_t"))), patterns=[c.post.rd(z3.Int("ce_t"), TASK, "_state")[1]]),
         # C02 / C03: a TASK_PLACEMENT event created here is for this task, carries this placement and fires at the chosen time
         "events.placement_at_chosen_time": z3.ForAll(
             [j],
